@@ -567,7 +567,7 @@ func judgeC05(c c05Case) (v core.Verdict) {
 
 func TestC05(t *testing.T) {
 	core.Run(t, "C05",
-		"nested if/else-if/else chains (1-4 arms, optional ':=' header whose variable later links and the final else read) and ranges (depth<=3; zero/one/two variables; ':=' and '=') over typed and interface slices, arrays, pointers, maps (string/int keys; multi-entry maps compared as multisets of per-entry renderings), closed channels (also receive-only), slices and arrays of more than 256 elements, ints(a,b) (also one value ranged twice: a cursor), maps with a NaN key, rangeables and conditions handed back by functions declared to return interface{}, index-providing and index-less custom Rangers, empty/nil variants and non-rangeables; conditions over bool/int/uint/float kinds at 0 and non-0, strings, nil, nil and non-nil pointers/maps/slices, structs, and over loop bindings in every form; also: a custom Ranger whose pointer receiver tolerates nil, as a typed nil pointer and with elements; round 10: one range statement that meets rangers of different kinds one after the other (a list holding a slice, channels, custom Rangers, a map, an array); collections in slots of interface types that have methods (sort.Interface, fmt.Stringer) and behind *interface{}; oracle = MiniJet reference interpreter (the engine runs under a one-minute watchdog: a loop that never ends is a violation); non-trivial = nested range, or a range/if with an else branch",
+		"nested if/else-if/else chains (1-4 arms, optional ':=' header whose variable later links and the final else read) and ranges (depth<=3; zero/one/two variables; ':=' and '=') over typed and interface slices, arrays, pointers, maps (string/int keys; multi-entry maps compared as multisets of per-entry renderings), closed channels (also receive-only), slices and arrays of more than 256 elements, ints(a,b) (also one value ranged twice: a cursor), maps with a NaN key, rangeables and conditions handed back by functions declared to return interface{}, index-providing and index-less custom Rangers, empty/nil variants and non-rangeables; conditions over bool/int/uint/float kinds at 0 and non-0, strings, nil, nil and non-nil pointers/maps/slices, structs, and over loop bindings in every form; also: a custom Ranger whose pointer receiver tolerates nil, as a typed nil pointer and with elements; round 10: one range statement that meets rangers of different kinds one after the other (a list holding a slice, channels, custom Rangers, a map, an array); collections in slots of interface types that have methods (sort.Interface, fmt.Stringer) and behind *interface{}; round 11: conditions that are slots of interface types with methods (error, fmt.Stringer) holding a struct without fields; oracle = MiniJet reference interpreter (the engine runs under a one-minute watchdog: a loop that never ends is a violation); non-trivial = nested range, or a range/if with an else branch",
 		genC05, judgeC05)
 }
 
